@@ -13,7 +13,7 @@ matrix by C12).
 import numpy as np
 
 from bounded.common import *  # noqa: F401,F403
-from bounded.common import G, driver_main, sr, val_blocks
+from bounded.common import G, driver_main, interleave, sr, val_blocks
 from bounded.oracles_linalg import (
     TOL,
     build_matrix,
@@ -48,28 +48,22 @@ ABSORBS = (None, -1, 0, 1)
 
 def gen_cases(tier, seed):
     quick = tier == "quick"
-    n = 0
-    for m in degenerate_matrices():
-        n += 1
-        if quick and n % 4:
-            continue
-        for mode in range(1, 7):
-            yield {"contract": "C13.svd_truncated", "m": m, "mode": mode}
-    k = 0
-    for m in wide_and_uneven_matrices():
-        k += 1
-        if quick and k % 6:
-            continue
-        for mode in range(1, 7):
-            yield {"contract": "C13.svd_truncated", "m": m, "mode": mode}
-    for m in systematic_matrices(stride=20 if quick else 2):
-        for mode in range(1, 7):
-            yield {"contract": "C13.svd_truncated", "m": m, "mode": mode}
+
+    def fam(ms, keep=1):
+        for n, m in enumerate(ms, 1):
+            if quick and keep > 1 and n % keep:
+                continue
+            for mode in range(1, 7):
+                yield {"contract": "C13.svd_truncated", "m": m, "mode": mode}
+
     rng = np.random.default_rng([13, 1, seed])
-    for i in range(120 if quick else 9000):
-        m = random_matrix(rng, degenerate=0.3)
-        for mode in range(1, 7):
-            yield {"contract": "C13.svd_truncated", "m": m, "mode": mode}
+    rand = (random_matrix(rng, degenerate=0.3) for _ in range(120 if quick else 9000))
+    yield from interleave(
+        fam(degenerate_matrices(), 4),
+        fam(wide_and_uneven_matrices(), 6),
+        fam(systematic_matrices(stride=20 if quick else 2)),
+        fam(rand),
+    )
 
 
 def bond_limits(n):
